@@ -197,7 +197,6 @@ uint8_t* Exec::ensure_slot(int si) {
   }
   if (s.liballoc && fft64 && (s.type == T_BIG || s.type == T_DFT || s.type == T_PPOL || s.type == T_PMAT)) {
     const MODULE* m = (const MODULE*)mods[s.mod];
-    sim_set_lib_fill(fill, fseed);
     if (s.type == T_BIG)
       p = (uint8_t*)new_vec_znx_big(m, s.size);
     else if (s.type == T_DFT)
@@ -206,6 +205,7 @@ uint8_t* Exec::ensure_slot(int si) {
       p = (uint8_t*)new_svp_ppol(m);
     else
       p = (uint8_t*)new_vmp_pmat(m, s.size, s.sl);
+    if (nb) sim_fill(p, nb, fill, fseed);  // the slot's own garbage plan, independent of what other tasks allocate
     owned[si] = 2;
   } else if (s.reserve) {
     // host of a future neighbour: one block, the reserve stays inaccessible (asan) until the neighbour is carved
